@@ -291,6 +291,33 @@ def page_check(relpath_outdir):
                             "why": f"the {d.directive_type.name} rendering of this module's own member {m.name} is not on its page", "relpath": relpath})
             else:
                 out.append({"name": f"page:{relpath}:{m.name}:{d.directive_type.name}", "verdict": "discharged"})
+        pass
+    # cross-references: the real role processors (docs/build.py applies them to every generated page) must resolve every role
+    try:
+        from pathlib import Path
+        from symplyphysics.docs import symbols_role, quantity_notation_role
+        import importlib
+        doc2 = symbols_role.process_string(text, Path(page))
+        doc2 = quantity_notation_role.process_string(doc2, Path(page))
+        if ":symbols:`" in doc2 or ":quantity_notation:`" in doc2:
+            out.append({"name": f"page:{relpath}:roles", "verdict": "candidate", "why": "a :symbols:/:quantity_notation: role survives processing", "relpath": relpath})
+        else:
+            bad_ref = None
+            for mm in re.finditer(r":attr:`~(symplyphysics\.(?:symbols\.\w+|quantities))\.(\w+)`", doc2):
+                try:
+                    if not hasattr(importlib.import_module(mm.group(1)), mm.group(2)):
+                        bad_ref = mm.group(0)
+                except Exception:
+                    bad_ref = mm.group(0)
+            if bad_ref:
+                out.append({"name": f"page:{relpath}:roles", "verdict": "candidate", "why": f"cross-reference {bad_ref} does not resolve", "relpath": relpath})
+            else:
+                out.append({"name": f"page:{relpath}:roles", "verdict": "discharged"})
+    except ValueError as e:
+        out.append({"name": f"page:{relpath}:roles", "verdict": "candidate", "why": f"role resolution fails: {e}", "relpath": relpath})
+    for m in members:
+        if m.name.startswith("_"):
+            continue
         if m.symbol is not None:
             ok = m.symbol.symbol in text and (m.symbol.latex is None or re.sub(r"\s+", " ", m.symbol.latex) in flat) and m.symbol.dimension in text
             out.append({"name": f"page:{relpath}:{m.name}:symbol-table", "verdict": "discharged" if ok else "candidate",
@@ -355,7 +382,7 @@ def run(ctx):
     ctx.functions_encoded = ["docs.patch.patch_sympy_evaluate", "core.processors.disable_sympy_evaluation/reset_sympy_evaluation", "docs.parse._find_law_directives",
                              "docs.build.generate_laws_docs (concrete run)", "docs.view._members_to_doc (through the run)"]
     ctx.bounds = [f"all {len(files)} catalogue source files", "CrossHair strings of 1-3 characters without ':'"]
-    ctx.outside = ["Sphinx HTML build and docs/build.py argument handling", "role resolution (:symbols:, :quantity_notation:) happens in the Sphinx phase and is not exercised",
+    ctx.outside = ["Sphinx HTML build and docs/build.py argument handling", "package pages are checked for existence/determinism only",
                    "an exception raised between disable and reset would leak the flag (no catalogue module raises there; generation aborts in that case)"]
     ctx.trusted = ["z3", "CrossHair", "the concrete generation run is what it is: a run"]
     # S1
